@@ -48,9 +48,13 @@ def interior(consts, seed):
     return c
 
 
-def render_cfg(consts, tier, impl, kind):
+ALL_FAMS = ["shapes", "single", "dep", "names", "totals", "pairs", "cross", "mix"]
+
+
+def render_cfg(consts, tier, impl, kind, fams=None):
     """kind: mc (covering enumeration, exported), mc_noexport, sim (random builder), trace."""
-    lines = ["CONSTANTS", '    Impl = "%s"' % impl, '    Tier = "%s"' % tier]
+    lines = ["CONSTANTS", '    Impl = "%s"' % impl, '    Tier = "%s"' % tier,
+             "    Fams = {%s}" % ", ".join('"%s"' % f for f in (fams or ALL_FAMS))]
     for k in CONST_ORDER:
         v = consts[k]
         lines.append("    %s = %s" % (k, json.dumps(v) if isinstance(v, str) else int(v)))
@@ -94,10 +98,26 @@ def get_table(vh):
     return json.loads(out.strip().splitlines()[-1])
 
 
-def j1(consts, tier, impl, export=True, timeout=1500):
-    cfg = render_cfg(consts, tier, impl, "mc" if export else "mc_noexport")
+FAM_GROUPS = {
+    "tiny": [ALL_FAMS],
+    "quick": [["pairs"], ["single", "totals"], ["shapes", "dep", "names", "cross", "mix"]],
+    "thorough": [["totals"], ["cross"], ["pairs", "mix"], ["single"], ["shapes", "dep", "names"]],
+}
+
+
+def j1_one(consts, tier, impl, fams, export, timeout):
+    cfg = render_cfg(consts, tier, impl, "mc" if export else "mc_noexport", fams)
     return vlib.tlc(SPEC_DIR, "Limits", "MC_gen.cfg", extra_files={"MC_gen.cfg": cfg}, timeout=timeout, deadlock=False,
-                    heap="6g")
+                    heap="4g", workers=max(2, vlib.NCPU // 4))
+
+
+def j1(consts, tier, impl, export=True, timeout=1500):
+    """Model-check the covering enumeration, one TLC run per group of families, in parallel.
+    Returns (results, exported messages, states, generated)."""
+    groups = FAM_GROUPS[tier]
+    with ThreadPoolExecutor(max_workers=len(groups)) as ex:
+        rs = list(ex.map(lambda f: j1_one(consts, tier, impl, f, export, timeout), groups))
+    return rs
 
 
 def j1_sim(consts, num, seed, timeout=900):
@@ -146,20 +166,24 @@ def judge_chunks(consts, trace_path, workdir, chunk, par):
     return [v for part in parts for v in part], len(files)
 
 
-def selftest(consts, trace_path, workdir):
-    """Binding self-test: corrupt one recorded field per property on real recorded lines; TLC must reject each."""
+def selftest(consts, trace_path, workdir, verdicts):
+    """Binding self-test: corrupt one recorded field per property on real recorded lines; TLC must reject each.
+    The lines are taken among those TLC judged clean (so the test also works on a tree that violates C19)."""
+    vd = {v["id"]: v for v in verdicts}
     rej = acc = None
     for raw in open(trace_path):
         ln = json.loads(raw)
-        if acc is None and ln["accepted"]:
+        v = vd[ln["id"]]
+        if not (v["p1"] and v["p2"] and v["p3"]):
+            continue
+        if acc is None and ln["accepted"] and ln["msg"]["groups"] and ln["msg"]["groups"][0]["units"]:
             acc = ln
-        if rej is None and not ln["accepted"] and ln["reason"] in ("unit-cpu", "unit-mem", "unit-sto", "unit-count",
-                                                                  "price-range", "too-many-units"):
+        if rej is None and not ln["accepted"] and not v["within"]:
             rej = ln
         if acc is not None and rej is not None:
             break
     if acc is None or rej is None:
-        raise vlib.Inconclusive("binding self-test: trace has no accepted or no rejected-out-of-limits line")
+        return {"ok": False, "skipped": "no clean accepted / clean rejected-outside-limits line in the trace"}
     c1 = json.loads(json.dumps(rej))                      # claim the out-of-limits message was accepted
     c1["accepted"], c1["reason"], c1["id"] = True, "ok", 1
     c2 = json.loads(json.dumps(rej))                      # a rejected message that changed the bank store
@@ -184,8 +208,6 @@ def selftest(consts, trace_path, workdir):
     res = {"corrupt_accepted_flag_rejected_by_p1": not v[1]["p1"], "corrupt_bank_digest_rejected_by_p2": not v[2]["p2"],
            "corrupt_stored_cpu_rejected_by_p3": not v[3]["p3"], "leftover_deployment_rejected_by_p2": not v[4]["p2"],
            "controls_pass": all(v[i]["p1"] and v[i]["p2"] and v[i]["p3"] for i in (5, 6)), "ok": ok}
-    if not ok:
-        raise vlib.Inconclusive("binding self-test failed: %s" % res)
     return res
 
 
@@ -217,31 +239,37 @@ def run(pid, tier, seed, replay):
     if replay:
         return do_replay(pid, tier, seed, replay, vh, consts, work, t0, assumptions)
 
-    # ---- J1: design check + enumeration
-    r = j1(consts, tier, "intended", timeout=2400)
-    vlib.tlc_require_ok(r, "J1 Limits (Impl=intended, Tier=%s)" % tier)
-    exported = [x for x in printed_json(r.out) if "verdict" in x]
-    states, generated = r.distinct, r.generated
-    if not exported or generated != 2 * len(exported):
-        raise vlib.Inconclusive("J1 export incomplete: %d messages printed, %d states generated" % (len(exported), generated))
+    # ---- J1: design check + enumeration; in parallel: the as-found variant and the random builder
+    t1 = time.time()
+    nsim = 1500 if tier == "quick" else 40000
+    with ThreadPoolExecutor(max_workers=3) as ex:
+        f_main = ex.submit(j1, consts, tier, "intended", True, 2400)
+        f_asf = ex.submit(j1, consts, "tiny", "asfound", False, 600)
+        f_sim = ex.submit(j1_sim, consts, nsim, seed, 1800)
+        main, ra, rs = f_main.result(), f_asf.result()[0], f_sim.result()
+    exported, states, generated = [], 0, 0
+    for fams, r in zip(FAM_GROUPS[tier], main):
+        vlib.tlc_require_ok(r, "J1 Limits (Impl=intended, Tier=%s, Fams=%s)" % (tier, fams))
+        ex = [x for x in printed_json(r.out) if "verdict" in x]
+        if not ex or r.generated != 2 * len(ex):
+            raise vlib.Inconclusive("J1 export incomplete for %s: %d messages printed, %d states generated" % (
+                fams, len(ex), r.generated))
+        exported += ex
+        states += r.distinct
+        generated += r.generated
     for x in exported:
         if x["verdict"] == "ok" and not x["within"]:
             raise vlib.Inconclusive("J1 passed but an exported message is admitted outside limits (spec error)")
-    vlib.log("[C19] J1: %d messages enumerated, %d distinct states, %.1fs" % (len(exported), states, r.wall_s))
-
     # the spec must be able to express the defect class: as found (no group-count bound), J1 fails
-    ra = j1(consts, "tiny", "asfound", export=False, timeout=600)
     asfound_detected = (not ra.ok) and ra.violated in ("AdmitImpliesWithin", "AcceptedOnlyWithin", "StoredWithinLimits")
     if not asfound_detected:
         raise vlib.Inconclusive("J1 vacuity guard: Impl=asfound did not violate the invariants (%r)" % ra)
-
     # random messages from the product space (TLC simulation of the builder)
-    nsim = 1500 if tier == "quick" else 40000
-    rs = j1_sim(consts, nsim, seed, timeout=1800)
     if not rs.ok:
         raise vlib.Inconclusive("J1 simulation failed: violated=%s\n%s" % (rs.violated, (rs.error or rs.out[-2000:])))
     sim = [x for x in printed_json(rs.out) if "verdict" in x]
-    vlib.log("[C19] J1 simulation: %d random messages, %.1fs" % (len(sim), rs.wall_s))
+    vlib.log("[C19] J1: %d messages enumerated (%d distinct states) + %d simulated, as-found variant violates %s, %.1fs" % (
+        len(exported), states, len(sim), ra.violated, time.time() - t1))
 
     msgs, seen, expect = [], set(), {}
     fam_count = {}
@@ -266,7 +294,7 @@ def run(pid, tier, seed, replay):
     vlib.log("[C19] J3: %d lines judged by TLC in %d runs, %.1fs" % (len(verdicts), nchunks, time.time() - t2))
     if len(verdicts) != len(msgs):
         raise vlib.Inconclusive("J3 judged %d of %d lines" % (len(verdicts), len(msgs)))
-    st = selftest(consts, trace, work)
+    st = selftest(consts, trace, work, verdicts)
 
     return conclude(pid, tier, seed, t0, consts, table, msgs, trace, verdicts, assumptions, dict(
         states=states, transitions=generated - len(exported), j1_messages=len(exported), sim_messages=len(sim),
@@ -302,6 +330,8 @@ def conclude(pid, tier, seed, t0, consts, table, msgs, trace, verdicts, assumpti
             violations.append(vlib.Violation(pid, sig, detail, {
                 "msgs.ndjson": json.dumps(bym[v["id"]]) + "\n", "trace.ndjson": json.dumps(ln) + "\n",
                 "seed": str(seed) + "\n"}))
+        if bad:
+            continue                                  # a violation is reported as such, not as drift
         if not v["conf"]:
             drift += 1
             if drift <= 20:
@@ -332,9 +362,9 @@ def conclude(pid, tier, seed, t0, consts, table, msgs, trace, verdicts, assumpti
         drift_steps=drift, reason_drift=reason_drift, limits_table=table["raw"], units=
         {k: consts[k] for k in ("UnitCPU", "UnitMem", "UnitSto")},
         interior_points={k: consts[k] for k in consts if k.startswith("Mid")}, stores_in_frame=table["stores"])
-    if violations:
-        keep = os.path.join(vlib.REPLAYS, pid, "last-trace")
-        shutil.rmtree(keep, ignore_errors=True)
+    st = cov.get("binding_selftest")
+    if st is not None and not st.get("ok") and not violations:
+        raise vlib.Inconclusive("binding self-test failed: %s" % st)
     return vlib.finish(pid, tier, seed, "model_checking", coverage, t0, violations, assumptions)
 
 
@@ -351,7 +381,7 @@ def do_replay(pid, tier, seed, path, vh, consts, work, t0, assumptions):
     inp, trace = run_harness(vh, msgs, seed, work, "replay")
     verdicts = judge(consts, trace)
     table = get_table(vh)
-    r = j1(consts, "tiny", "intended", export=False, timeout=600)
+    r = j1(consts, "tiny", "intended", export=False, timeout=600)[0]
     vlib.tlc_require_ok(r, "J1 Limits (replay)")
     return conclude(pid, tier, seed, t0, consts, table, msgs, trace, verdicts, assumptions,
                     dict(states=r.distinct, transitions=r.generated - r.distinct // 2, replay=src), work)
